@@ -51,7 +51,8 @@ enum Status {
     NotStarted,
     Running,
     AtYield(u64),
-    Blocked(u64),
+    /// blocked on a lock; the flag says whether it wants exclusive access (write / upgrade)
+    Blocked(u64, bool),
     Done,
 }
 
@@ -122,13 +123,31 @@ impl Controller for Sched {
             }
         }
         self.park(me, Status::AtYield(lock));
+        // parking_lot's RwLock is task-fair: a shared acquisition queues behind a waiting writer even
+        // if the lock is only read-locked (so a recursive read can deadlock).  try_read would succeed
+        // here, so the queueing is emulated: while another thread is blocked wanting exclusive access
+        // to this lock, a reader counts as blocked too.
+        if mode == Mode::Read || mode == Mode::UpgradableRead {
+            loop {
+                let writer_waiting = {
+                    let g = self.shared.lock().unwrap();
+                    g.status
+                        .iter()
+                        .any(|(t, s)| *t != me && *s == Status::Blocked(lock, true))
+                };
+                if !writer_waiting {
+                    break;
+                }
+                self.park(me, Status::Blocked(lock, false));
+            }
+        }
     }
-    fn blocked(&self, lock: u64, _mode: Mode) {
+    fn blocked(&self, lock: u64, mode: Mode) {
         let me = Self::me();
         if me == 0 {
             return;
         }
-        self.park(me, Status::Blocked(lock));
+        self.park(me, Status::Blocked(lock, mode == Mode::Write || mode == Mode::Upgrade));
     }
     fn acquired(&self, lock: u64, mode: Mode) {
         let me = Self::me();
@@ -159,7 +178,7 @@ impl Controller for Sched {
         let waiters: Vec<usize> = g
             .status
             .iter()
-            .filter(|(_, s)| **s == Status::Blocked(lock))
+            .filter(|(_, s)| matches!(s, Status::Blocked(l, _) if *l == lock))
             .map(|(t, _)| *t)
             .collect();
         for t in waiters {
@@ -376,7 +395,7 @@ fn run_controlled(
                 .status
                 .iter()
                 .filter_map(|(t, s)| match s {
-                    Status::Blocked(l) => Some(json!([t, l])),
+                    Status::Blocked(l, w) => Some(json!([t, l, w])),
                     _ => None,
                 })
                 .collect();
